@@ -2,7 +2,7 @@
     (model of index/eval.go, matchtree.go, indexdata.go, matchiter.go, hititer.go at /repo HEAD incl. the word fast-path
     fix commits 260937d d7a2c44 cae2348). *)
 From ZV Require Import Lib.Base Model.SearchCore Proofs.SearchCoreText Proofs.SearchCoreTree Proofs.SearchCoreLoop
-  Proofs.SearchCoreSelect Proofs.SearchCoreBuild Proofs.SearchCoreSimp Proofs.SearchCoreWord Proofs.SearchCoreTop Proofs.SearchCoreRf.
+  Proofs.SearchCoreSelect Proofs.SearchCoreBuild Proofs.SearchCoreSimp Proofs.SearchCoreWord Proofs.SearchCoreTop Proofs.SearchCoreRf Proofs.SearchCoreDistill Proofs.SearchCoreEngine.
 From Coq Require Import ZifyBool ZifyN.
 
 (** 1. Verified trigram candidates are exactly the occurrences: for every list of texts, every pattern of >= 3 runes,
@@ -111,6 +111,52 @@ Theorem C01_search_exact_regexp_free :
 Proof. intros. apply search_exact_rfree; assumption. Qed.
 Print Assumptions C01_search_exact_regexp_free.
 
+(** 10. Soundness of regexpToMatchTreeRecursive against the regexp semantics [rm] (Proofs/SearchCoreDistill.v: exact for
+    literals, capture, +, {n,}, concatenation, alternation, (?-s:.)*, \b; every other operator over-approximated by
+    "matches any span"): whenever the regexp matches document k somewhere, the distilled tree holds on k -- including
+    the same-line conjunction (andLineMatchTree), because a singleLine regexp cannot match across a newline. *)
+Theorem C01_distill_sound :
+  forall (re_match : N -> list N -> bool) (tolower : N -> N) (orbit : N -> list N) (c : corpus)
+         (freq : bool -> bool -> tri -> N),
+  agree tolower orbit ->
+  (forall fn cs g, freq fn cs g = 0%N -> post orbit (ix_tris c fn) cs g = []) ->
+  (forall x, tolower x = tolower 10%N -> x = 10%N) ->
+  forall (cs fn : bool) (k : nat), k < ndocs c ->
+  forall (r : rx) (i j : nat), rm tolower cs (text_of c fn k) r i j ->
+  sem re_match tolower c k (fst (fst (distill orbit c freq cs fn r))) = true.
+Proof. exact distill_sound. Qed.
+Print Assumptions C01_distill_sound.
+
+(** 11. ... and when the distillation claims equivalence (isEqual) the converse holds. *)
+Theorem C01_distill_equal :
+  forall (re_match : N -> list N -> bool) (tolower : N -> N) (orbit : N -> list N) (c : corpus)
+         (freq : bool -> bool -> tri -> N),
+  agree tolower orbit ->
+  (forall fn cs g, freq fn cs g = 0%N -> post orbit (ix_tris c fn) cs g = []) ->
+  (forall x, tolower x = tolower 10%N -> x = 10%N) ->
+  forall (cs fn : bool) (k : nat), k < ndocs c ->
+  forall r : rx, snd (fst (distill orbit c freq cs fn r)) = true ->
+  sem re_match tolower c k (fst (fst (distill orbit c freq cs fn r))) = true ->
+  exists i j, rm tolower cs (text_of c fn k) r i j.
+Proof. exact distill_equal. Qed.
+Print Assumptions C01_distill_equal.
+
+(** 12. TOP LEVEL with the engine characterised semantically: for every corpus and every query over the modelled atom
+    kinds, if the external regexp engine is sound w.r.t. [rm] on every regexp atom and complete on the atoms that use
+    only exactly-modelled operators ([engine_ok]), Search without limits returns exactly the live documents on which
+    the query evaluates to true.  Still _partial: the engine itself is not modelled, [rm] over-approximates the
+    operators it does not define, symbol queries are absent. *)
+Theorem C01_search_exact_engine_partial :
+  forall (re_match : N -> list N -> bool) (tolower : N -> N) (orbit : N -> list N) (c : corpus)
+         (freq : bool -> bool -> tri -> N) (q : Q),
+  agree tolower orbit ->
+  (forall fn cs g, freq fn cs g = 0%N -> post orbit (ix_tris c fn) cs g = []) ->
+  (forall x, tolower x = tolower 10%N -> x = 10%N) ->
+  engine_ok re_match tolower c (expand (simp c q)) ->
+  search re_match tolower orbit c freq q = spec_search re_match tolower c q.
+Proof. exact search_exact_engine. Qed.
+Print Assumptions C01_search_exact_engine_partial.
+
 (** the frequency function used by the correspondence runner satisfies the frequency hypothesis *)
 Lemma count_freq_sound : forall orbit c fn cs g, count_freq orbit c fn cs g = 0%N -> post orbit (ix_tris c fn) cs g = [].
 Proof.
@@ -170,3 +216,16 @@ Proof. vm_compute. auto. Qed.
 (** selection: pattern of 6 runes, frequencies favouring the overlapping trigrams 1 and 2 -> shifted apart *)
 Example ex_select : select_idx (sort_offs (pat_tris [97; 98; 99; 100; 101; 102]%N)) [9; 1; 1; 9]%N = (0, 3).
 Proof. vm_compute. reflexivity. Qed.
+(** regexp semantics: (foo)+.*bar matches "xfoofoo_bar" from 1 to 11; distilled tree = same-line conjunction of foo and bar *)
+Example ex_rm : rm alower true [120; 102; 111; 111; 102; 111; 111; 95; 98; 97; 114]%N
+    (RConcat [RPlus (RCapture (RLit [102; 111; 111]%N false)); RStarAnyNotNL; RLit [98; 97; 114]%N false]) 1 11.
+Proof.
+  apply rm_cat. eapply rmc_cons with (m := 7).
+  - eapply rm_plusS with (m := 4); [apply rm_cap; apply (rm_lit alower true _ [102; 111; 111]%N false 1); [reflexivity | simpl; lia]|].
+    apply rm_plus1. apply rm_cap. apply (rm_lit alower true _ [102; 111; 111]%N false 4); [reflexivity | simpl; lia].
+  - eapply rmc_cons with (m := 8).
+    + apply rm_star; [lia | simpl; lia|]. intros p H1 H2. assert (p = 7) by lia. subst. discriminate.
+    + eapply rmc_cons; [apply (rm_lit alower true _ [98; 97; 114]%N false 8); [reflexivity | simpl; lia]|]. apply rmc_nil. simpl. lia.
+Qed.
+Example alower_nl : forall x, alower x = alower 10%N -> x = 10%N.
+Proof. intros x H. unfold alower in H. destruct ((65 <=? x) && (x <=? 90))%N eqn:E; simpl in H; lia. Qed.
